@@ -622,7 +622,7 @@ func c15Scenarios(thorough bool) []*e3Scenario {
 
 func runC15(c *Ctx) {
 	r := c.Run
-	r.Rule("part 1: every grpc-timeout of 1..5 (thorough 1..7) digits × 6 units through the real gRPC entry path (deadline bracket t_receipt+T <= deadline <= t_handler+T, hour clamp), boundary values of the remaining digit counts through the full path and strides (thorough: the complete 8-digit layer) through the parser hook, 32 malformed shapes; part 2: scenarios {gRPC, gRPC-web, HTTP transcoding} × {unary, client-, server-, bidi-streaming} (+ two with a goroutine leaked by the handler that keeps sending, + four on a mux with pass-through interceptors and a stats handler; part 1 alternates between the plain mux and such a mux): server thread, client feeder thread (messages, half-close), client cancel thread (cancel + failing reads/writes, as net/http does); every interleaving up to the preemption bound; oracle per schedule: after the cancellation every handler observation of ctx.Err() is non-nil, stream calls started after it fail, a parked Recv is released, ServeHTTP returns (deadlock detection), nothing is written to the ResponseWriter after ServeHTTP returned; distinct = timeout shards + (scenario, outcome)")
+	r.Rule("part 1: every grpc-timeout of 1..5 (thorough 1..7) digits × 6 units through the real gRPC entry path (deadline bracket t_receipt+T <= deadline <= t_handler+T, hour clamp), boundary values of the remaining digit counts through the full path and strides (thorough: the complete 8-digit layer) through the parser hook, 32 malformed shapes; part 2: scenarios {gRPC, gRPC-web, HTTP transcoding} × {unary, client-, server-, bidi-streaming} (+ two with a goroutine leaked by the handler that keeps sending, + four on a mux with pass-through interceptors and a stats handler; part 1 alternates between the plain mux and such a mux): server thread, client feeder thread (messages, half-close), client cancel thread (cancel + failing reads/writes, as net/http does); every interleaving up to the preemption bound; oracle per schedule: after the cancellation every handler observation of ctx.Err() is non-nil, stream calls started after it fail, a parked Recv is released, ServeHTTP returns (deadlock detection), nothing is written to the ResponseWriter after ServeHTTP returned; part 3: real clients against larking.NewServer on loopback that read the first reply and go away (raw TCP: gRPC-web / gRPC-web-text / HTTP transcoding over HTTP/1.1 with Content-Length and chunked bodies; grpc-go over h2c) - the handler's context must be cancelled; distinct = timeout shards + (scenario, outcome)")
 	r.Assume("'promptly' means at the handler's next observation; real RST_STREAM delivery is net/http's job", "signed timeout values are not demanded either way")
 	t, err := newTSchema()
 	if err != nil {
@@ -630,6 +630,7 @@ func runC15(c *Ctx) {
 	}
 	if c.Shards == 0 {
 		runC15Timeouts(c, t)
+		runC15Disconnect(c)
 	}
 	bound, per := 2, 40*time.Second
 	if c.Thorough() {
